@@ -399,6 +399,7 @@ def register_nest(R):
           setup=lambda S: dict(self=nest_obj(S), key=S.int("key")), returns="ref",
           raises={"IndexError": ("out-of-range-only", lambda E, v, o: z3.Or(to_z3(v["key"], "int") < -zint(v["self"].fields["idx"].n), to_z3(v["key"], "int") >= zint(v["self"].fields["idx"].n)))},
           ensures=[("the-tree-at-the-selected-index-of-the-underlying-container", get_post)],
+          pure_inline=True,  # one-line indirection: callers (whose container may be a real LazyLoadingTrees) inline the body
           options=dict(strict_index=False))
 
     # Populations.__getitem__(int): one tree per population, in population order
@@ -533,3 +534,217 @@ _reg19b = register
 def register(R):  # noqa: F811
     _reg19b(R)
     register_iter(R)
+
+
+# ---------------------------------------------------------------------------
+# Population.__getitem__(slice): a NestTrees over the SAME container whose index list is Python's slice selection of
+# range(len(self)), in order; nothing is read.  (Element k of the slice is then item(trees, idx[k]) by NestTrees.__getitem__.)
+def py_slice_spec(n, a, b, st):
+    """(first, count) of list(range(n))[a:b:st] for a concrete step st != 0, written from the language reference
+    (negative bounds count from the end, bounds are clipped, a missing bound means "as far as the step direction goes")"""
+    if st > 0:
+        lo_clip, hi_clip = z3.IntVal(0), n
+    else:
+        lo_clip, hi_clip = z3.IntVal(-1), n - 1
+
+    def norm(x, missing):
+        if x is None:
+            return missing
+        xz = to_z3(x, "int")
+        y = z3.If(xz < 0, xz + n, xz)
+        return z3.If(y < lo_clip, lo_clip, z3.If(y > hi_clip, hi_clip, y))
+
+    if st > 0:
+        s, e = norm(a, z3.IntVal(0)), norm(b, n)
+        cnt = z3.If(e > s, (e - s + (st - 1)) / st, z3.IntVal(0))
+    else:
+        s, e = norm(a, n - 1), norm(b, z3.IntVal(-1))
+        cnt = z3.If(s > e, (s - e + (-st - 1)) / (-st), z3.IntVal(0))
+    return s, cnt
+
+
+def register_slice(R):
+    from pyvc.values import Obj, zint
+    from swcgeom.core.population import NestTrees, Population
+
+    def pop_lazy(S):
+        return S.obj(Population, trees=lazy_obj(S), root="")
+
+    def setup(a_sym, b_sym, st):
+        def f(S):
+            key = slice(S.int("start") if a_sym else None, S.int("stop") if b_sym else None, st)
+            return dict(self=pop_lazy(S), key=key, __ghost__=GHOST)
+
+        return f
+
+    def parts(v, o):
+        r, key = v["result"], o["key"]
+        n = zint(v["self"].fields["trees"].fields["swcs"].n)
+        st = 1 if key.step is None else key.step
+        s, cnt = py_slice_spec(n, key.start, key.stop, st)
+        return r, n, st, s, cnt
+
+    def same_container(E, v, o):
+        r = v["result"]
+        return isinstance(r, Obj) and r.cls is NestTrees and r.fields.get("trees") is v["self"].fields["trees"] and isinstance(r.fields.get("idx"), PList) and r.fields["idx"].uid not in E.entry_uids
+
+    def selection(E, v, o):
+        r, n, st, s, cnt = parts(v, o)
+        L = r.fields["idx"]
+        if L.items is not None:
+            return False
+        t = z3.Int(fresh_name("t"))
+        return z3.And(zint(L.n) == cnt, z3.ForAll([t], z3.Implies(z3.And(t >= 0, t < cnt), z3.Select(L.cols[0], t) == s + t * st)))
+
+    def valid(E, v, o):
+        r, n, st, s, cnt = parts(v, o)
+        L = r.fields["idx"]
+        t = z3.Int(fresh_name("t"))
+        return z3.ForAll([t], z3.Implies(z3.And(t >= 0, t < zint(L.n)), z3.And(z3.Select(L.cols[0], t) >= 0, z3.Select(L.cols[0], t) < n)))
+
+    def whole(E, v, o):
+        """[:] selects 0..n-1, [::-1] selects n-1..0 (sanity anchors of the specification itself)"""
+        r, n, st, s, cnt = parts(v, o)
+        key = o["key"]
+        if key.start is not None or key.stop is not None or st not in (1, -1):
+            return True
+        L = r.fields["idx"]
+        t = z3.Int(fresh_name("t"))
+        return z3.And(zint(L.n) == n, z3.ForAll([t], z3.Implies(z3.And(t >= 0, t < n), z3.Select(L.cols[0], t) == (t if st == 1 else n - 1 - t))))
+
+    variants = {}
+    for st in (None, 1, -1, 2, -3):
+        for a_sym, b_sym in ((True, True), (False, False), (True, False), (False, True)):
+            nm = f"[{'a' if a_sym else ''}:{'b' if b_sym else ''}:{'' if st is None else st}]"
+            variants[nm] = setup(a_sym, b_sym, st)
+    R.add(f"{POP}:Population.__getitem__", prop="C19",
+          variants=variants,
+          requires=wf_lazy("self.trees"),
+          ensures=[("slice/an-index-view-of-the-same-container-with-a-private-index-list", same_container),
+                   ("slice/selects-exactly-the-positions-of-python's-slice-in-order", selection),
+                   ("slice/every-selected-position-is-a-valid-index", valid),
+                   ("slice/whole-and-reversed-anchors", whole),
+                   "slice/slicing-requests-no-tree :: ncalls('LazyLoadingTrees.__getitem__') == 0 and ncalls('LazyLoadingTrees.load') == 0 and ncalls('Tree.from_swc') == 0"]
+          + ["slice/" + c for c in frame_lazy("self.trees")])
+
+
+_reg19c = register
+
+
+def register(R):  # noqa: F811
+    _reg19c(R)
+    register_slice(R)
+
+
+# ---------------------------------------------------------------------------
+# filter_population(pop, predicate): `[i for i, t in enumerate(pop) if predicate(t)]` consumes the population's LAZY iterator
+# (every tree is requested once, in order), then wraps an index view.  The predicate is an arbitrary PURE function of the tree
+# (uninterpreted PRED).  Ghost vocabulary (definitions, see `filter_defs`): P(j) = PRED(j-th tree), CNT(k) = number of j < k with
+# P(j), KAP(m) = the m-th position that satisfies the predicate.
+PRED = z3.Function("pred", _I, z3.BoolSort())
+CNT = z3.Function("cnt_sel", _I, _I)
+KAP = z3.Function("kap_sel", _I, _I)
+
+
+def register_filter(R):
+    from pyvc.values import Obj, zint
+    from swcgeom.core.population import NestTrees, Population
+
+    def tree_at(v, j):
+        """the j-th tree of the population `pop` (a z3 term)"""
+        t = v["pop"].fields["trees"]
+        if isinstance(t, Opaque):
+            return ITEM(t.z, j)
+        return TREE_OF(z3.Select(t.fields["swcs"].cols[0], j))
+
+    def nof(v):
+        t = v["pop"].fields["trees"]
+        return TLEN(t.z) if isinstance(t, Opaque) else zint(t.fields["swcs"].n)
+
+    def P(v, j):
+        return PRED(tree_at(v, j))
+
+    def filter_defs(E, fr):
+        """definitional facts about the fresh ghost functions CNT / KAP (CNT by recursion over positions; KAP is defined at the
+        values CNT(j) of the selected positions j, which are pairwise different because CNT grows by one at each of them)"""
+        v = fr.vars
+        j = z3.Int(fresh_name("j"))
+        E.assume(CNT(0) == 0)
+        E.assume(z3.ForAll([j], z3.Implies(j >= 0, CNT(j + 1) == CNT(j) + z3.If(P(v, j), 1, 0)), patterns=[CNT(j + 1)]))
+        E.assume(z3.ForAll([j], z3.Implies(z3.And(j >= 0, P(v, j)), KAP(CNT(j)) == j), patterns=[CNT(j)]))
+        E.assumptions.add("ghost definitions (filter_population): CNT(k) = number of positions j < k whose tree satisfies the predicate (recursion), KAP(CNT(j)) = j for every such j")
+
+    def inv(name, f):
+        return (name, lambda E, v, o: f(v, to_z3(v["_k"], "int"), v["__out__"]))
+
+    m, m2, j = z3.Int("m"), z3.Int("m2"), z3.Int("j")
+
+    def lazy_part(v, k, out):
+        t = v["pop"].fields["trees"]
+        if isinstance(t, Opaque):
+            return z3.BoolVal(True)
+        T = t.fields["trees"].cols[0]
+        return z3.ForAll([j], z3.Implies(z3.And(j >= 0, j < k), z3.Select(T, j) != 0))
+
+    INV = [
+        inv("count", lambda v, k, out: z3.And(zint(out.n) == CNT(k), CNT(k) >= 0, CNT(k) <= k)),
+        inv("kept-so-far-are-the-selected-positions-in-order", lambda v, k, out: z3.ForAll([m], z3.Implies(z3.And(m >= 0, m < CNT(k)), z3.Select(out.cols[0], m) == KAP(m)))),
+        inv("selected-positions-are-earlier-positions-that-satisfy-the-predicate", lambda v, k, out: z3.ForAll([m], z3.Implies(z3.And(m >= 0, m < CNT(k)), z3.And(KAP(m) >= 0, KAP(m) < k, P(v, KAP(m)), CNT(KAP(m)) == m)))),
+        inv("every-earlier-position-that-satisfies-the-predicate-is-selected", lambda v, k, out: z3.ForAll([j], z3.Implies(z3.And(j >= 0, j < k, P(v, j)), z3.And(CNT(j) >= 0, CNT(j) < CNT(k), KAP(CNT(j)) == j)))),
+        inv("increasing", lambda v, k, out: z3.ForAll([m, m2], z3.Implies(z3.And(m >= 0, m < m2, m2 < CNT(k)), KAP(m) < KAP(m2)))),
+        inv("every-tree-requested-so-far-is-loaded", lazy_part),
+        ("object-invariant", lambda E, v, o: True if isinstance(v["pop"].fields["trees"], Opaque) else _all(E, wf_lazy("pop.trees"), v)),
+        ("files-untouched", lambda E, v, o: True if isinstance(v["pop"].fields["trees"], Opaque) else _all(E, frame_lazy("pop.trees")[:1], v, o)),
+    ]
+
+    def setup(lazy):
+        def f(S):
+            trees = lazy_obj(S) if lazy else Opaque(z3.Int(fresh_name("trees")), TREES_PROTO)
+            pop = S.obj(Population, trees=trees, root="root")
+            return dict(pop=pop, predicate=S.callback("predicate", lambda E, a, k: E.sbool(PRED(to_z3(a[0], "int")))), __ghost__=GHOST)
+
+        return f
+
+    def view(E, v, o):
+        r = v["result"]
+        if not (isinstance(r, Obj) and r.cls is Population and r.fields.get("root") == "root"):
+            return False
+        nt = r.fields.get("trees")
+        return isinstance(nt, Obj) and nt.cls is NestTrees and nt.fields.get("trees") is v["pop"].fields["trees"] and isinstance(nt.fields.get("idx"), PList) and nt.fields["idx"].uid not in E.entry_uids
+
+    def idx_of(v):
+        return v["result"].fields["trees"].fields["idx"]
+
+    def kept(E, v, o):
+        L, n = idx_of(v), nof(v)
+        return z3.And(zint(L.n) == CNT(n),
+                      z3.ForAll([m], z3.Implies(z3.And(m >= 0, m < zint(L.n)), z3.And(z3.Select(L.cols[0], m) >= 0, z3.Select(L.cols[0], m) < n, P(v, z3.Select(L.cols[0], m))))))
+
+    def complete(E, v, o):
+        L, n = idx_of(v), nof(v)
+        return z3.ForAll([j], z3.Implies(z3.And(j >= 0, j < n, P(v, j)), z3.And(CNT(j) >= 0, CNT(j) < zint(L.n), z3.Select(L.cols[0], CNT(j)) == j)))
+
+    def ordered(E, v, o):
+        L = idx_of(v)
+        return z3.ForAll([m, m2], z3.Implies(z3.And(m >= 0, m < m2, m2 < zint(L.n)), z3.Select(L.cols[0], m) < z3.Select(L.cols[0], m2)))
+
+    R.add(f"{POP}:filter_population", prop="C19",
+          variants={"lazy": setup(True), "any-trees": setup(False)},
+          requires=[("object-invariant-of-a-lazy-container", lambda E, v, o: True if isinstance(v["pop"].fields["trees"], Opaque) else _all(E, wf_lazy("pop.trees"), v))],
+          lemmas=[filter_defs],
+          options=dict(genexp_hook=X.genexp_hook, comprehension_hook=X.comprehension_hook,
+                       comprehension_rule=dict(kind="int", label="filter", invariant=INV)),
+          ensures=[("a-population-over-an-index-view-of-the-same-container-same-root", view),
+                   ("keeps-only-positions-whose-tree-satisfies-the-predicate", kept),
+                   ("keeps-every-position-whose-tree-satisfies-the-predicate", complete),
+                   ("keeps-them-in-order-each-once", ordered),
+                   ("each-file-read-at-most-once(object-invariant-kept)", lambda E, v, o: True if isinstance(v["pop"].fields["trees"], Opaque) else _all(E, wf_lazy("pop.trees") + frame_lazy("pop.trees")[:2], v, o))],
+          notes="the predicate is an arbitrary pure function of the tree (uninterpreted); the list comprehension is cut at the rule's invariant")
+
+
+_reg19d = register
+
+
+def register(R):  # noqa: F811
+    _reg19d(R)
+    register_filter(R)
